@@ -28,7 +28,15 @@ use std::collections::BTreeSet;
 use std::sync::atomic::{AtomicBool, AtomicUsize, Ordering};
 use std::sync::{Arc, Condvar, Mutex, MutexGuard, Weak};
 use std::time::Duration;
+use std::future::Future;
+use std::pin::Pin;
 use umharness::util::*;
+use undermoon::common::cluster::{ClusterName, MigrationMeta, Range, RangeList, SlotRange, SlotRangeTag};
+use undermoon::common::config::AtomicMigrationConfig;
+use undermoon::migration::stats::MigrationStats;
+use undermoon::migration::task::MigratingTask;
+use undermoon::migration::verif_export::scan_task::RedisScanMigratingTask;
+use undermoon::protocol::{OptionalMulti, RedisClient, RedisClientError, RedisClientFactory};
 use undermoon::common::verif_hook::set_point_hook;
 use undermoon::protocol::{Resp, RespVec};
 use undermoon::proxy::backend::{CmdTask, SenderBackendError};
@@ -229,7 +237,7 @@ impl Config {
                 if p == "_" {
                     ctrls.push(vec![]);
                 } else {
-                    if !p.chars().all(|c| "SPDR".contains(c)) || p.is_empty() {
+                    if !p.chars().all(|c| "SPDRWB".contains(c)) || p.is_empty() {
                         return None;
                     }
                     ctrls.push(p.chars().collect());
@@ -284,6 +292,8 @@ enum Note {
     Polled(bool),
     /// controller starts executing command `c` (bookkeeping for the timing oracle)
     Cmd(char),
+    /// the controller left its wait loop / `pre_block` returned: the caller proceeds to PreSwitch
+    Proceed,
     Panic,
 }
 
@@ -299,6 +309,9 @@ struct Core {
     from: &'static str,
     parts: Vec<String>,
     was_closed: bool,
+    /// some controller holding a handle has finished `start; wait until blocking_done()`
+    proceeded: bool,
+    was_proceeded: bool,
     steps: Vec<usize>,
     lines: Vec<(String, String)>,
     chooser: Option<Chooser>,
@@ -401,6 +414,7 @@ impl Shared {
         let mut core = self.lock();
         match n {
             Note::Cmd(c) => core.cur_cmd[tid] = c,
+            Note::Proceed => core.proceeded = true,
             Note::Ret(s) => {
                 core.rets[tid].push(s.clone());
                 if core.phase == Phase::Run {
@@ -428,6 +442,7 @@ impl Shared {
         core.from = core.at.get(u).copied().flatten().unwrap_or("end");
         core.parts.clear();
         core.was_closed = core.closed;
+        core.was_proceeded = core.proceeded;
     }
 
     fn decide(&self, core: &mut Core) -> Decision {
@@ -538,6 +553,7 @@ impl Shared {
         let k = self.cfg.senders.len();
         let from = core.from;
         let was_closed = core.was_closed;
+        let was_proceeded = core.was_proceeded;
         let parts = std::mem::take(&mut core.parts);
         let evs: Vec<Ev> = std::mem::take(&mut *self.rec.events.lock().expect("events"));
         let (gtext, done, blk) = self.globals();
@@ -552,6 +568,12 @@ impl Shared {
                     if was_closed {
                         core.failures.push((
                             format!("barrier: task {} handed to the backend after blocking_done was observed and before blocking was lifted", i),
+                            "",
+                        ));
+                    }
+                    if was_proceeded {
+                        core.failures.push((
+                            format!("barrier/protocol: task {} handed to the backend after the blocking phase of the caller completed (pre_block returned / wait loop left, state PreSwitch) and before its BlockingHandle was dropped", i),
                             "",
                         ));
                     }
@@ -590,6 +612,7 @@ impl Shared {
         // oracle bookkeeping on the public observables
         if !blk {
             core.closed = false;
+            core.proceeded = false;
             for e in core.enq_open.iter_mut() {
                 *e = false;
             }
@@ -666,6 +689,8 @@ fn run_case(cfg: &Config, chooser: Chooser) -> CaseOut {
             from: "end",
             parts: vec![],
             was_closed: false,
+            proceeded: false,
+            was_proceeded: false,
             steps: vec![],
             lines: vec![],
             chooser: Some(chooser),
@@ -747,6 +772,24 @@ fn run_case(cfg: &Config, chooser: Chooser) -> CaseOut {
                                 if let Some(h) = handle.take() {
                                     sh2.note(t, Note::Cmd('D'));
                                     drop(h);
+                                }
+                            }
+                            'W' => {
+                                sh2.note(t, Note::Cmd('W'));
+                                loop {
+                                    let b = queue.blocking_done();
+                                    sh2.note(t, Note::Polled(b));
+                                    if b {
+                                        break;
+                                    }
+                                }
+                                if handle.is_some() {
+                                    sh2.note(t, Note::Proceed);
+                                }
+                            }
+                            'B' => {
+                                if handle.is_none() {
+                                    run_real_blocking_phase(&sh2, t, queue.clone());
                                 }
                             }
                             _ => {
@@ -906,6 +949,127 @@ fn run_case(cfg: &Config, chooser: Chooser) -> CaseOut {
         rets: std::mem::take(&mut core.rets),
         failures: std::mem::take(&mut core.failures),
     }
+}
+
+// ---------------------------------------------------------------------------------------------
+// the real caller: RedisScanMigratingTask::start() = pre_check; pre_block; pre_switch; stop()
+// ---------------------------------------------------------------------------------------------
+
+/// the task's blocking controller: the real queue; only reports what `pre_block` reads
+struct PbCtrl {
+    inner: Arc<Queue>,
+    sh: Arc<Shared>,
+    t: usize,
+}
+
+impl TaskBlockingController for PbCtrl {
+    type Sender = RecRedisp;
+    fn blocking_done(&self) -> bool {
+        let b = self.inner.blocking_done();
+        self.sh.note(self.t, Note::Polled(b));
+        b
+    }
+    fn get_blocking_state(&self) -> undermoon::proxy::blocking::BlockingState {
+        self.inner.get_blocking_state()
+    }
+    fn start_blocking(&self) -> BlockingHandle<RecRedisp> {
+        self.sh.note(self.t, Note::Cmd('S'));
+        self.inner.start_blocking()
+    }
+    fn stop_blocking(&self) {
+        self.inner.stop_blocking()
+    }
+}
+
+const DST_PROXY: &str = "dst-proxy:7000";
+
+/// peer proxy stand-in: answers OK to PING / UMCTL PRECHECK / PRESWITCH; the PRESWITCH request
+/// shows that `pre_block` has returned.  Any other connection (the scan of the source Redis,
+/// which starts after `blocking_handle.stop()`) ends the driven part of the task.
+struct PbClient {
+    sh: Arc<Shared>,
+    t: usize,
+}
+
+impl RedisClient for PbClient {
+    fn execute<'s>(
+        &'s mut self,
+        command: OptionalMulti<Vec<Vec<u8>>>,
+    ) -> Pin<Box<dyn Future<Output = Result<OptionalMulti<RespVec>, RedisClientError>> + Send + 's>> {
+        let is_preswitch = match &command {
+            OptionalMulti::Single(c) => c.iter().any(|a| a.as_slice() == b"PRESWITCH"),
+            OptionalMulti::Multi(cs) => cs.iter().any(|c| c.iter().any(|a| a.as_slice() == b"PRESWITCH")),
+        };
+        if is_preswitch {
+            self.sh.note(self.t, Note::Proceed);
+        }
+        let reply = command.map(|_| Resp::Simple(b"OK".to_vec()));
+        Box::pin(async move { Ok(reply) })
+    }
+}
+
+struct PbFactory {
+    sh: Arc<Shared>,
+    t: usize,
+    scan_started: Arc<tokio::sync::Notify>,
+}
+
+impl RedisClientFactory for PbFactory {
+    type Client = PbClient;
+    fn create_client<'s>(
+        &'s self,
+        address: String,
+    ) -> Pin<Box<dyn Future<Output = Result<PbClient, RedisClientError>> + Send + 's>> {
+        let client = PbClient { sh: self.sh.clone(), t: self.t };
+        let notify = self.scan_started.clone();
+        Box::pin(async move {
+            if address != DST_PROXY {
+                notify.notify_one();
+                futures::future::pending::<()>().await;
+            }
+            Ok(client)
+        })
+    }
+}
+
+/// controller command `B`: the real migrating task up to (and including) the drop of its handle
+fn run_real_blocking_phase(sh: &Arc<Shared>, t: usize, queue: Arc<Queue>) {
+    let meta = MigrationMeta {
+        epoch: 1,
+        src_proxy_address: "src-proxy:7000".to_string(),
+        src_node_address: "backend".to_string(),
+        dst_proxy_address: DST_PROXY.to_string(),
+        dst_node_address: "dst-node:6379".to_string(),
+    };
+    let scan_started = Arc::new(tokio::sync::Notify::new());
+    let factory = Arc::new(PbFactory { sh: sh.clone(), t, scan_started: scan_started.clone() });
+    let ctrl = Arc::new(PbCtrl { inner: queue, sh: sh.clone(), t });
+    let config = Arc::new(umharness::route_support::server_config(&umharness::route_support::ProxyCfg {
+        active_redirection: false,
+        max_redirections: None,
+        default_redirection_address: None,
+    }));
+    let task: RedisScanMigratingTask<PbFactory, HTask, PbCtrl> = RedisScanMigratingTask::new(
+        config,
+        Arc::new(AtomicMigrationConfig::default()),
+        ClusterName::default(),
+        SlotRange { range_list: RangeList::new(vec![Range(0, 100)]), tag: SlotRangeTag::Migrating(meta.clone()) },
+        meta,
+        factory,
+        ctrl,
+        Arc::new(MigrationStats::default()),
+    );
+    let rt = tokio::runtime::Builder::new_current_thread()
+        .enable_time()
+        .start_paused(true)
+        .build()
+        .unwrap_or_else(|e| harness_failure(&format!("tokio runtime: {}", e)));
+    rt.block_on(async {
+        tokio::select! {
+            _ = task.start() => {}
+            _ = scan_started.notified() => {}
+        }
+    });
 }
 
 // ---------------------------------------------------------------------------------------------
@@ -1569,7 +1733,7 @@ fn gen_config(rng: &mut Rng, st: &mut Stats) -> Config {
         }
         senders.push((h, ok));
     }
-    let templates = ["SPD", "SPPD", "SPPPD", "SD", "SPDSPD", "SPDR", "SRPD", "SP", "PSPD", "R", "SDSD", "DSPD"];
+    let templates = ["SPD", "SPPD", "SPPPD", "SD", "SPDSPD", "SPDR", "SRPD", "SP", "PSPD", "R", "SDSD", "DSPD", "B", "B", "B", "SWD", "BB"];
     let m = if rng.chance(1, 8) { 0 } else { 1 + rng.below(2) as usize };
     st.count(&format!("gen.ctrls{}", m));
     let mut ctrls = vec![];
